@@ -139,7 +139,8 @@ class BanditSyntheticSimulation(Environment):
         rewards = CobaRandom(self._seed).randoms(self._n_actions)
         actions = OneHotEncoder().fit_encodes(range(self._n_actions))
 
-        yield from repeat({'context': None, 'actions': actions, 'rewards': rewards}, self._n_interactions)
+        interaction = {'context': None, 'actions': actions, 'rewards': rewards}
+        yield from repeat(interaction) if self._n_interactions is None else repeat(interaction, self._n_interactions)
 
     def __str__(self) -> str:
         return f"BanditSimulation(A={self._n_actions},seed={self._seed})"
